@@ -179,7 +179,8 @@ def is_trivial_sig(s):
 
 def method_sig(owner, m):
     sk = m.self_kind[0] if m.self_kind else "static"
-    return "%s:%s(%s)->%s" % (owner.kind, sk, ",".join(ty_sig(t) for _, t in m.params), ty_sig(m.ret))
+    dip = getattr(m, "dip_params", ())
+    return "%s:%s(%s)->%s" % (owner.kind, sk, ",".join(ty_sig(t) + ("~dip" if pn in dip else "") for pn, t in m.params), ty_sig(m.ret))
 
 
 # --------------------------------------------------------------------------
@@ -193,7 +194,7 @@ DEFAULT_PROFILE = dict(
     dip_spellings=True, result_dip=False, keyword_params=True, nested_structs=True,
     max_params=5, cb_struct_args=True, opt_slices=True, char=False, ordering=True,
     mut_self=True, opt_mut_oref=True, namespaces=False, byte_slices=True, renames=False,
-    strs_utf8=False, result_prim_err=True, opt_owned=False, write_prob=0.18, cb_opt=True, cb_slices=True, cb_strs=True, cb_aggr_ret=True, traits=False, trait_prob=0.5, held_callbacks=False, self_spelling=True, opt_strs=True, cb_orefs=False, opt_slice_fields=False, trait_method_disable=0.0,
+    strs_utf8=False, result_prim_err=True, opt_owned=False, write_prob=0.18, cb_opt=True, cb_slices=True, cb_strs=True, cb_aggr_ret=True, traits=False, trait_prob=0.5, held_callbacks=False, self_spelling=True, opt_strs=True, cb_orefs=False, opt_slice_fields=False, trait_method_disable=0.0, dip_params=0.2,
 )
 
 
@@ -542,6 +543,12 @@ class Gen:
             params.insert(at, ("po", ("opt", (owner.kind if owner.kind == "enum" else "struct", owner.name), "std")))
             own_opt = True
         m = Method("m%d" % idx, sk, params, ret, lifetimes=lifetimes)
+        if self.p["dip_params"]:
+            # slice / string parameters written in their Diplomat spelling (DiplomatSlice<T>, DiplomatSliceMut<T>, DiplomatOwnedSlice<T>,
+            # Diplomat[Owned]{Str,Str16,Utf8Str}Slice, DiplomatSlice<DiplomatStrSlice>): the macro passes them through unconverted and the
+            # body converts them itself; every backend must declare them exactly like the std spelling
+            m.dip_params = {pn for pn, pt in params if pt[0] in ("slice", "str", "oslice", "ostr", "strs") and (pt[0] not in ("slice", "str") or pt[-1] == "std")
+                            and self.chance(self.p["dip_params"])}
         # spell the owner's own type as `Self` in this signature (Box<Self>, &Self, Self by value ...): a separate AST node (SelfType)
         m.self_spelling = bool(self.p["self_spelling"] and not owner.lifetimes and self.chance(0.7 if own_opt else 0.3))
         m.owner = owner
